@@ -200,7 +200,7 @@ def crash_point(item, acc: core.Acc, tier):
     state = "absent" if got == absent else ("present" if got == present else "torn")
     acc.outcome((last, where, state))
     acc.nontrivial((tuple(h), k))
-    rp = {"history": h, "sql": sqls(h), "kill": where, "engine_calls_of_last_statement": log}
+    rp = {"history": h, "sql": sqls(h), "kill": where, "k": k, "engine_calls_of_last_statement": log}
     intx = in_tx_before_last(h)
     if problems:
         acc.violation("C18.reopen_works", f"last={last},kill={where}", {"problems": problems}, rp)
@@ -304,6 +304,27 @@ def run(ctx: core.Ctx):
 
 
 def replay(payload):
+    """Re-execute one stored counterexample without the explorer: clean runs of the history without / with the last
+    statement give the two acceptable observations, then the kill (or exit mode) is repeated."""
     r = payload["replay"]
-    print(r)
-    return True
+    if r.get("memory_control"):
+        acc = core.Acc()
+        memory_control(0, acc, "quick")
+        print(acc.viol or "ok")
+        return bool(acc.viol)
+    h = r["history"]
+    acc = core.Acc()
+    if "exit" in r:
+        clean_node((h, r["exit"]), acc, "quick")
+    else:
+        present = clean_node((h, "clean"), core.Acc(), "quick")
+        absent = clean_node((h[:-1], "clean"), core.Acc(), "quick")["obs"] if h else None
+        k = r["k"] if "k" in r else (0 if r["kill"] == "after_return" else int(r["kill"].split("_")[2]))
+        crash_point((h, k, absent, present["obs"], present["log"]), acc, "quick")
+    print("history:", sqls(h))
+    print("event:", r.get("exit") or r.get("kill"))
+    for k, v in acc.viol.items():
+        print(k, core.json.dumps(v["detail"])[:1500])
+    if not acc.viol:
+        print("ok: state after reopening is one of the acceptable ones")
+    return bool(acc.viol)
